@@ -32,6 +32,12 @@ class EngineC13(EngineC14):
         self.attr_keys = sorted(self.by_attr)
 
     def gen_input(self, ch: Chooser, want_fail_weight=2):
+        if want_fail_weight and ch.chance(1, 12, "flag-then-fail"):
+            # rejected right after an attribute flag was recorded (unsupported .new register class as first operand)
+            pool = [t for t in self.failing_ok if "OsN" in t or "_NEW =" in t]
+            if pool:
+                t = ch.choice(pool, "ftf")
+                return "bad_" + stable_hash(t)[:8], [t], "failing"
         if ch.chance(6, 10, "attr-biased"):
             a = ch.choice(self.attr_keys, "attr")
             n, j = ch.choice(self.by_attr[a], "attr-item")
